@@ -139,18 +139,36 @@ def pushTimes (w : Nat) (x : Val) : Nat → WM Unit
   | 0 => pure ()
   | n+1 => do push w x; pushTimes w x n
 
+/-- the cursor pair of `iter::Iter` (`index`, `end`) -/
+structure Cursor where
+  index : Nat
+  end_ : Nat
+  deriving Repr, DecidableEq
+
+/-- `Iter::next`: the yielded slot (if any) and the advanced cursor -/
+def Cursor.next (c : Cursor) : Option Nat × Cursor :=
+  if c.index = c.end_ then (none, c) else (some c.index, { c with index := c.index + 1 })
+
+/-- `Iter::next_back` -/
+def Cursor.nextBack (c : Cursor) : Option Nat × Cursor :=
+  if c.end_ = c.index then (none, c) else (some (c.end_ - 1), { c with end_ := c.end_ - 1 })
+
+/-- `Iter::len` / `size_hint` -/
+def Cursor.len (c : Cursor) : Nat := c.end_ - c.index
+
+def Cursor.step (c : Cursor) : End → Option Nat × Cursor
+  | .front => c.next
+  | .back => c.nextBack
+
 /-- `Iter::{next,next_back,len}` over `[a,b)` of vector `v` -/
-def iterGo (cfg : Cfg) (v : Nat) : Nat → Nat → List End → Out → WM Out
-  | _, _, [], out => pure out
-  | a, b, c :: cs, out =>
-    if a = b then iterGo cfg v a b cs (out ++ ["N:0"])
-    else match c with
-      | .front => do
-        let id ← readElem v a
-        iterGo cfg v (a + 1) b cs (out ++ [cfg.tok id ++ ":" ++ toString (b - (a + 1))])
-      | .back => do
-        let id ← readElem v (b - 1)
-        iterGo cfg v a (b - 1) cs (out ++ [cfg.tok id ++ ":" ++ toString (b - 1 - a)])
+def iterGo (cfg : Cfg) (v : Nat) : Cursor → List End → Out → WM Out
+  | _, [], out => pure out
+  | c, e :: cs, out =>
+    match c.step e with
+    | (none, c') => iterGo cfg v c' cs (out ++ ["N:" ++ toString c'.len])
+    | (some slot, c') => do
+      let id ← readElem v slot
+      iterGo cfg v c' cs (out ++ [cfg.tok id ++ ":" ++ toString c'.len])
 
 /-- the caller drops the values it holds (a `Vec<T>` being dropped: all of them, even if one panics) -/
 def releaseGo (hasDrop : Bool) : List Nat → WM Unit
@@ -333,14 +351,12 @@ def eatLoop (cfg : Cfg) (onPanic : RangeIt → WM Unit) :
     RangeIt → List (End × Sink) → Out → WM (RangeIt × Out)
   | it, [], out => pure (it, out)
   | it, (e, k) :: rest, out =>
-    if it.index = it.end_ then
-      eatLoop cfg onPanic it rest (out ++ ["N:0"])
-    else do
-      let (it', slot) := match e with
-        | .front => ({ it with index := it.index + 1 }, it.index)
-        | .back => ({ it with end_ := it.end_ - 1 }, it.end_ - 1)
+    match (Cursor.mk it.index it.end_).step e with
+    | (none, _) => eatLoop cfg onPanic it rest (out ++ ["N:0"])
+    | (some slot, c') => do
+      let it' := { it with index := c'.index, end_ := c'.end_ }
       let o ← WM.onUnwind (sinkElem cfg it.v slot it.typed k) (onPanic it')
-      let tok := (String.intercalate "/" o) ++ ":" ++ toString (it'.end_ - it'.index)
+      let tok := (String.intercalate "/" o) ++ ":" ++ toString c'.len
       eatLoop cfg onPanic it' rest (out ++ [tok])
 
 def drain (cfg : Cfg) (v : Nat) (lo hi : Bnd) (typed : Bool) (eats : List (End × Sink))
@@ -444,6 +460,14 @@ def cloneVec (v : Nat) : WM Out := do
         dropVec idx)
   pure []
 
+/-- the caller writes `k` fresh values into the spare capacity starting at slot `i` -/
+def writeFresh (v : Nat) : Nat → Nat → WM Unit
+  | _, 0 => pure ()
+  | i, n+1 => do
+    let id ← fresh
+    writeCell v i (.val id)
+    writeFresh v (i + 1) n
+
 def step (cfg : Cfg) (op : Op) : WM Out :=
   match op with
   | .new ty bk c => newVec cfg ty bk c none
@@ -514,7 +538,7 @@ def step (cfg : Cfg) (op : Op) : WM Out :=
     else pure ["N"]
   | .iter v cs => do
     let x ← getVec v
-    iterGo cfg v 0 x.len cs [toString x.len]
+    iterGo cfg v { index := 0, end_ := x.len } cs [toString x.len]
   | .drain v lo hi typed eats fin => drain cfg v lo hi typed eats fin
   | .splice v lo hi typed repl claim eats fin => splice cfg v lo hi typed repl claim eats fin
   | .clone v => cloneVec v
@@ -610,34 +634,34 @@ def step (cfg : Cfg) (op : Op) : WM Out :=
     pure [s, s, s]
   | .views v => do
     let x ← getVec v
-    pure ["b" ++ toString (x.len * x.size), "s" ++ toString ((x.cap - x.len) * x.size),
-          "o" ++ toString (x.len * x.size), "sc" ++ toString (x.cap - x.len),
-          "so" ++ toString (x.len * x.size), "al0", "ts1", "tl" ++ toString x.len]
+    pure ["b" ++ toString x.asBytes.2, "s" ++ toString x.spareBytes.2,
+          "o" ++ toString x.spareBytes.1, "sc" ++ toString x.spareCapacity.2,
+          "so" ++ toString x.spareCapacity.1, "al0", "ts" ++ toString (if x.typedSlice.1 = x.asBytes.1 then 1 else 0),
+          "tl" ++ toString x.typedSlice.2]
   | .setLenSpare v k _ => do
     let x ← getVec v
     if x.len + k ≤ x.cap then do
-      let rec go : Nat → Nat → WM Unit
-        | _, 0 => pure ()
-        | i, n+1 => do
-          let id ← fresh
-          writeCell v i (.val id)
-          go (i + 1) n
-      go x.len k
+      writeFresh v x.len k
       setLen v (x.len + k)
       pure []
     else WM.ub "bad-op: set_len beyond capacity"
   | .rawrt v => do
     let x ← getVec v
     match x.bk with
-    | .heap | .empty | .reloc => pure []
+    | .heap | .empty | .reloc => do
+      setVec v (VecSt.fromRawParts x.intoRawParts)
+      pure []
     | _ => WM.ub "bad-op: raw parts on this backend (does not type-check)"
   | .rawparts v => do
     let x ← getVec v
     match x.bk with
-    | .heap | .empty | .reloc =>
-      let fields := ["l" ++ toString x.len, "c" ++ toString x.cap, "s" ++ toString x.size,
-                     "a" ++ toString x.align, "t" ++ toString x.ty, "d" ++ (if x.hasDrop then "1" else "0")]
-      pure (fields ++ fields)
+    | .heap | .empty | .reloc => do
+      let p := x.intoRawParts
+      let fields := fun (q : VecSt.RawParts) =>
+        ["l" ++ toString q.len, "c" ++ toString q.capacity, "s" ++ toString q.size,
+         "a" ++ toString q.align, "t" ++ toString q.ty, "d" ++ (if q.hasDrop then "1" else "0")]
+      setVec v (VecSt.fromRawParts p)
+      pure (fields p ++ fields p.clone)
     | _ => WM.ub "bad-op: raw parts on this backend (does not type-check)"
 
 /-- one script step: the library call(s), then the caller destroys the raw values the library
